@@ -7,7 +7,8 @@
 From Coq Require Import List NArith Bool Permutation Relations.
 From Coq Require Strings.String.
 Import Coq.Strings.String.StringSyntax.
-From Acg Require Import Base.Str Base.Outcome Model.Hierarchy Proofs.HierarchyFacts Gen.GenHierarchy.
+From Acg Require Import Base.Str Base.Outcome Model.Hierarchy Proofs.HierarchyFacts
+  Proofs.HierarchyStack Proofs.HierarchyAccept Gen.GenHierarchy.
 Import ListNotations.
 Open Scope nat_scope.
 
@@ -66,60 +67,121 @@ Theorem C05_ancestors_closure : forall m, wf prims m -> prims_alone prims m ->
 Proof. exact (ancestors_closure_thm prims). Qed.
 Print Assumptions C05_ancestors_closure.
 
-(** Full statement (not proved at the level of the whole pass):
-      properties c = dedup (flat_map properties (bases c)) ++ own c   for every class c
-      after [stack_properties] (likewise invariants), and methods likewise or an error.
-    Proved here: the equation established by ONE step of the pass for the class it
-    processes, other entries untouched. Missing: the induction along the topological
-    order showing that the parents' entries read by the step are already final (validated
-    by the correspondence stream and the oracle, which compare the whole lists). *)
-Theorem C05_properties_stacked_partial : forall m (A : Type) (skip : name -> bool)
-    (st : list (name * list (ident A))) n c,
-  skip n = false -> find_class m n = Some c ->
-  lookup n (stack_step prims m skip st n)
-  = Some (dedup id_eqb (flat_map (fun b => lk b st) (class_bases prims c)) ++ lk n st)
-  /\ forall k, k <> n -> lookup k (stack_step prims m skip st n) = lookup k st.
-Proof. exact (stacked_step_thm prims). Qed.
-Print Assumptions C05_properties_stacked_partial.
+(** EVERY ACCEPTED META-MODEL IS WELL-FORMED: the parse-stage checks give unique names and
+    existing bases, and the DFS reports every cycle (partial correctness of the DFS without
+    any assumption). Hence the theorems below need no [wf] hypothesis: they hold for every
+    accepted meta-model, in any declaration order. *)
+Theorem C05_accepted_wf : forall m r, translate prims m = Ok r -> wf prims m.
+Proof. exact (accepted_wf prims). Qed.
+Print Assumptions C05_accepted_wf.
 
-(** No two properties of the same name in a class of an accepted model (the model
-    crashes like [_set_properties] otherwise). *)
-Theorem C05_properties_nodup : forall m anc pmap c,
-  props_violation prims m anc pmap = false -> In c m -> is_cp prims m anc (c_name c) = false ->
-  NoDup (map id_val (lk (c_name c) pmap)).
-Proof. exact (props_nodup_thm prims). Qed.
-Print Assumptions C05_properties_nodup.
+(** For every accepted meta-model: ancestors = transitive closure of the declared bases,
+    descendants = the inverse relation, no duplicates, concrete descendants = the
+    non-abstract descendants. *)
+Theorem C05_accepted_ancestors : forall m r, translate prims m = Ok r ->
+  forall c, In c m ->
+    exists ci, class_ir r (c_name c) = Some ci
+      /\ (forall a, In a (i_ancestors ci) <-> clos_trans name (base prims m) (c_name c) a)
+      /\ (forall d, In d (names m) ->
+            (In d (i_descendants ci) <-> clos_trans name (base prims m) d (c_name c)))
+      /\ NoDup (i_ancestors ci) /\ NoDup (i_descendants ci)
+      /\ (i_is_cp ci = false ->
+            forall d, In d (i_concrete_descendants ci)
+                      <-> In d (i_descendants ci) /\ is_abstract m d = false).
+Proof. exact (ancestors_closure_e2e prims). Qed.
+Print Assumptions C05_accepted_ancestors.
 
-(** Full statement: for every class of an accepted model the in-lined constructor contains
-    no super-constructor call and assigns every property exactly once.
-    Proved here: a step of the constructor pass that reports no error leaves, for its
-    class, a list without super calls that assigns no property twice (repaired behaviour).
-    Missing: that later steps do not overwrite the entry (names are unique) and that every
-    property is assigned at least once (that is [verify_initialized], part of the model's
-    acceptance; checked by correspondence and oracle). *)
-Theorem C05_ctor_inlined_partial : forall m anc kmap err c kmap',
-  ctor_step prims m anc (kmap, err) c = Ok (kmap', false) ->
-  is_cp prims m anc (c_name c) = false ->
-  forallb (fun x => is_assign (id_val x)) (lk (c_name c) kmap') = true
-  /\ NoDup (map (fun x => stmt_prop (id_val x)) (lk (c_name c) kmap')).
-Proof. exact (ctor_step_thm prims). Qed.
-Print Assumptions C05_ctor_inlined_partial.
+(** For every accepted meta-model the type order is a permutation of the classes in which
+    every class comes after its bases. *)
+Theorem C05_accepted_topo : forall m r, translate prims m = Ok r ->
+  Permutation (r_topo r) (names m)
+  /\ forall l1 c l2, r_topo r = l1 ++ c :: l2 -> forall b, base prims m c b -> In b l1.
+Proof. exact (topo_acc prims). Qed.
+Print Assumptions C05_accepted_topo.
 
-(** Full statement: has_interface c <-> abstract c \/ descendants c <> [] for every class.
-    Proved here: the step of the interface pass for a class creates an interface exactly
-    in that case, inheriting from the bases. Missing: the fold (every class is processed
-    exactly once because the order is a permutation — [C05_topo_perm]). *)
-Theorem C05_interface_iff_partial : forall m anc st n c st',
-  iface_step prims m anc st n = Ok st' ->
-  is_cp prims m anc n = false -> find_class m n = Some c -> ~ In n (map fst st) ->
-  lookup n st' = Some (if c_abstract c || negb (is_nil (onto_descendants anc n))
-                       then Some (c_bases c) else None).
-Proof. exact (iface_step_thm prims). Qed.
-Print Assumptions C05_interface_iff_partial.
+(** [class_ir r n]: the intermediate representation of the class named [n] in the result.
 
-(** [model_type_consistent] (a class has with_model_type iff it or an ancestor sets it,
-    or the model is rejected) is not proved; it is checked by the correspondence stream
-    and by the oracle on every run. *)
+    Properties and invariants of an accepted meta-model: the lists observed in
+    the intermediate representation are the images of identity-carrying lists [pmap]/[imap]
+    (identity = owner and position, as Python's [id(..)] in the code) which satisfy, for EVERY
+    class, the equation
+        entry c = de-duplicated (by identity) concatenation of the FINAL entries of the bases
+                  of c, in the declared order of the bases, followed by the own items of c
+    i.e. inherited ones first (de-duplicated across diamonds), then its own; and no two
+    properties of a class carry the same name. Constrained primitives take part in the
+    stacking of invariants only. *)
+Theorem C05_properties_stacked : forall m r, translate prims m = Ok r ->
+  exists pmap imap : list (name * list (ident name)),
+    forall c, In c m ->
+      exists ci, class_ir r (c_name c) = Some ci
+        /\ i_props ci = map pair_owner (lk (c_name c) pmap)
+        /\ i_invs ci = map pair_owner (lk (c_name c) imap)
+        /\ lk (c_name c) imap
+           = dedup id_eqb (flat_map (fun b => lk b imap) (class_bases prims c))
+             ++ own_ids (c_name c) (c_invs c)
+        /\ (i_is_cp ci = false ->
+              lk (c_name c) pmap
+              = dedup id_eqb (flat_map (fun b => lk b pmap) (class_bases prims c))
+                ++ own_ids (c_name c) (c_props c)
+              /\ NoDup (map fst (i_props ci))).
+Proof. exact (properties_stacked_acc prims). Qed.
+Print Assumptions C05_properties_stacked.
+
+(** The same equation for the pass itself, whatever is stacked and whichever classes are
+    skipped (also for models that are rejected later). *)
+Theorem C05_stacked_equation : forall m (A : Type) (skip : name -> bool) (own : cls -> list A),
+  wf prims m -> forall order, topo_sort prims m = Ok order ->
+  forall c, In c m ->
+    let final := stack_ids prims m skip own order in
+    lk (c_name c) final =
+    if skip (c_name c) then own_ids (c_name c) (own c)
+    else dedup id_eqb (flat_map (fun b => lk b final) (class_bases prims c))
+         ++ own_ids (c_name c) (own c).
+Proof. exact (stacked_fold_thm prims). Qed.
+Print Assumptions C05_stacked_equation.
+
+(** The in-lined constructor of every class of an accepted meta-model consists
+    of assignments only (no super-constructor call is left) and assigns every property of
+    the class exactly once (repaired behaviour). *)
+Theorem C05_ctor_inlined : forall m r, translate prims m = Ok r ->
+  forall c, In c m ->
+    exists ci, class_ir r (c_name c) = Some ci
+      /\ (i_is_cp ci = false ->
+            NoDup (i_inlined ci)
+            /\ (forall p, In p (i_inlined ci) <-> In p (map fst (i_props ci)))
+            /\ exists stmts : list (ident stmt),
+                 i_inlined ci = map (fun x => stmt_prop (id_val x)) stmts
+                 /\ forallb (fun x => is_assign (id_val x)) stmts = true).
+Proof. exact (ctor_inlined_acc prims). Qed.
+Print Assumptions C05_ctor_inlined.
+
+(** An interface exists exactly for abstract classes and for classes with descendants,
+    and it inherits from the bases. *)
+Theorem C05_interface_iff : forall m r, translate prims m = Ok r ->
+  forall c, In c m ->
+    exists ci, class_ir r (c_name c) = Some ci
+      /\ (i_is_cp ci = false ->
+            (i_iface ci <> None <-> c_abstract c = true \/ i_descendants ci <> [])
+            /\ forall l, i_iface ci = Some l -> l = c_bases c).
+Proof. exact (interface_iff_acc prims). Qed.
+Print Assumptions C05_interface_iff.
+
+(** with_model_type is propagated consistently: there is a setting per class (after
+    propagation; [None] = unset, rendered as false) such that a class takes over the
+    setting of each base that has one and its own declared one, and has a setting only if
+    it declares it or a base has it. (Conflicting settings are a reported error.) *)
+Theorem C05_model_type_consistent : forall m r, translate prims m = Ok r ->
+  exists setting : name -> option bool,
+    forall c, In c m ->
+      exists ci, class_ir r (c_name c) = Some ci
+        /\ (i_is_cp ci = false ->
+              i_wmt ci = Some (match setting (c_name c) with Some v => v | None => false end)
+              /\ (forall b v, In b (c_bases c) -> setting b = Some v -> setting (c_name c) = Some v)
+              /\ (forall v, c_wmt c = Some v -> setting (c_name c) = Some v)
+              /\ (forall v, setting (c_name c) = Some v ->
+                    c_wmt c = Some v \/ exists b, In b (c_bases c) /\ setting b = Some v)).
+Proof. exact (model_type_consistent_acc prims). Qed.
+Print Assumptions C05_model_type_consistent.
 
 (** Non-vacuity: the diamond A; B(A); C(A); D(B,C) is well-formed, accepted, and resolved
     without duplicates; every property is assigned exactly once in D's in-lined constructor. *)
@@ -169,3 +231,20 @@ Proof.
   repeat (destruct Hcl as [<-|Hcl]; [vm_compute in Hp; discriminate|]). destruct Hcl.
 Qed.
 Print Assumptions C05_diamond_prims_alone.
+
+(** The hypotheses of the end-to-end theorems are satisfiable: the diamond is accepted. *)
+Example C05_diamond_accepted : exists r, translate prims diamond = Ok r.
+Proof. eexists. vm_compute. reflexivity. Qed.
+Print Assumptions C05_diamond_accepted.
+
+(** with_model_type set in the middle of a chain A; B(A); C(B): A stays false, B and C true. *)
+Definition plain (n : String.string) (abs : bool) (bases : list String.string) (w : option bool) : cls :=
+  {| c_name := s2l n; c_abstract := abs; c_bases := map s2l bases; c_props := []; c_invs := [];
+     c_methods := []; c_ctor := None; c_wmt := w |}.
+Example C05_model_type_chain :
+  match translate prims [plain "A" true [] None; plain "B" true ["A"] (Some true); plain "C" false ["B"] None] with
+  | Ok r => map i_wmt (r_classes r) = [Some false; Some true; Some true]
+  | _ => False
+  end.
+Proof. vm_compute. reflexivity. Qed.
+Print Assumptions C05_model_type_chain.
